@@ -160,7 +160,17 @@ func (ex *Exec) step(fr *Frame, in ssa.Instruction, st *State, cur *smt.Term) *s
 		fr.vals[x] = v
 		return cur
 	case *ssa.Convert:
-		fr.vals[x] = ex.convert(ex.val(fr, x.X), x.Type(), st)
+		src := ex.val(fr, x.X)
+		cv := ex.convert(src, x.Type(), st)
+		if src.Tok != nil {
+			// []byte(sequence): the bytes are still that escape sequence
+			if sl, isSl := x.Type().Underlying().(*types.Slice); isSl {
+				if b, isB := sl.Elem().Underlying().(*types.Basic); isB && b.Kind() == types.Uint8 {
+					cv.Tok = src.Tok
+				}
+			}
+		}
+		fr.vals[x] = cv
 		return cur
 	case *ssa.MultiConvert:
 		fr.vals[x] = ex.fresh("multiconv", x.Type())
